@@ -550,7 +550,7 @@ func (c *Ctx) runCase(family string, i int, fn func(k *Case)) {
 	default:
 	}
 	if len(a) > 0 && strings.Join(a, "\n") == strings.Join(b, "\n") {
-		key := a[0]
+		key := hexAddr.ReplaceAllString(a[0], "")
 		if len(key) > 160 {
 			key = key[:160]
 		}
@@ -562,6 +562,8 @@ func (c *Ctx) runCase(family string, i int, fn func(k *Case)) {
 
 // caseWatchdog bounds a single case (VERIF_CASE_WATCHDOG_S overrides the default of 300 s).
 var caseWatchdog = time.Duration(envInt("VERIF_CASE_WATCHDOG_S", 300)) * time.Second
+
+var hexAddr = regexp.MustCompile(`0x[0-9a-f]+,? ?`)
 
 var otelFrame = regexp.MustCompile(`go\.opentelemetry\.io/otel[^\s(]*\.[A-Za-z0-9_.()*]+`)
 
@@ -676,6 +678,19 @@ func (c *Ctx) runChild(self, workDir, family string, lo, hi int, o IsoOpts) {
 		// (atexit_sleep_ms: the detector otherwise sleeps a full second at every exit; a child exits after its cases
 		// have joined all their goroutines, so nothing is left to report by then)
 		cmd.Env = append(cmd.Env, "GORACE=halt_on_error=0 exitcode=0 atexit_sleep_ms=20 log_path="+base+".race")
+	}
+	if os.Getenv("VERIF_CASE_WATCHDOG_S") == "" {
+		// the child's per-case watchdog (two stack samples, 3 s apart, decide between "hang" and inconclusive)
+		// must fire well before this parent gives up on the whole child, or a case that blocks forever inside
+		// the library ends as a killed child without a verdict
+		w := (o.Timeout - 30*time.Second) / 2
+		if w < 30*time.Second {
+			w = 30 * time.Second
+		}
+		if w > 300*time.Second {
+			w = 300 * time.Second
+		}
+		cmd.Env = append(cmd.Env, fmt.Sprintf("VERIF_CASE_WATCHDOG_S=%d", int(w/time.Second)))
 	}
 	if o.Env != nil {
 		cmd.Env = append(cmd.Env, o.Env(lo)...)
